@@ -130,11 +130,18 @@ class P(flow.Plan):
         runs.append(("sender-pause-F18", "SenderPauseImpl", pc % (1, 1, "TRUE", ""), None, ["NeverDies"]))
         # beyond the listed properties: the whole job life cycle (startprint / pause / resume / cancelprint / ";@pause" / restart)
         jc = ("SPECIFICATION Spec\nCONSTANTS\n NLines = 3\n NJobs = 2\n MaxCorrupt = %d\n MaxPauses = %d\n MaxCancels = 1\n NRestore = %d\n"
-              " HostPauseAt = {%s}\n PauseClearsSentlines = %s\nCHECK_DEADLOCK FALSE\n"
+              " HostPauseAt = {%s}\n PauseClearsSentlines = %s\n ResendAnalysed = TRUE\n QuietPause = FALSE\nCHECK_DEADLOCK FALSE\n"
               "INVARIANT CompleteModuloFindings\nINVARIANT InOrder\nINVARIANT JobsInOrder\nINVARIANT RestoreDelivered\nINVARIANT NeverDies\n%s")
         live = "PROPERTY CancelStops\nPROPERTY Terminates\n"
         runs.append(("jobs-lifecycle", "SenderJobsImpl", jc % (1, 1, 2, "2", "FALSE", live), None, []))
         runs.append(("jobs-lifecycle-F18", "SenderJobsImpl", jc % (1, 1, 1, "2", "TRUE", ""), None, ["NeverDies"]))
+        # finding F19 (beyond the listed properties): the position saved by pause() counts transmitted, not accepted lines
+        rc = ("SPECIFICATION Spec\nCONSTANTS\n NLines = 3\n NJobs = 1\n MaxCorrupt = %d\n MaxPauses = %d\n MaxCancels = 0\n NRestore = 2\n"
+              " HostPauseAt = {}\n PauseClearsSentlines = FALSE\n ResendAnalysed = %s\n QuietPause = %s\nCHECK_DEADLOCK FALSE\n"
+              "INVARIANT ResumeReturns\nINVARIANT InOrder\n")
+        runs.append(("jobs-resume-no-corruption", "SenderJobsImpl", rc % (0, 2, "TRUE", "FALSE"), None, []))
+        runs.append(("jobs-resume-F19", "SenderJobsImpl", rc % (1, 1, "TRUE", "FALSE"), None, ["ResumeReturns"]))
+        runs.append(("jobs-resume-F19-quiet-noreanalysis", "SenderJobsImpl", rc % (1, 1, "FALSE", "TRUE"), None, ["ResumeReturns"]))
         if tier == "thorough":
             runs.append(("jobs-lifecycle-2x2", "SenderJobsImpl", jc % (2, 2, 1, "1, 3", "FALSE", live), None, []))
             runs.append(("sender-4x3", "SenderImpl", cfg(4, 3, ["CompleteModuloFindings", "InOrder"]), None, []))
@@ -184,16 +191,24 @@ class P(flow.Plan):
         from . import check_jobs as cj
         tier, sd = getattr(self, "_tier", "quick"), getattr(self, "_sd", 1)
         trs, lost = cj.run_scenarios(sd, 96 if tier == "thorough" else 24)
+        nrandom = len(trs)
+        trs += [cj._run(sc) for sc in cj.F19_WITNESSES]
         acc, tot, rej, inv = cj.validate(trs)
+        f19 = sorted({i for i, name in inv if name == "ResumeReturns"})
+        inv = [x for x in inv if x[1] != "ResumeReturns"]
+        wit = [i for i in f19 if i >= nrandom]
+        flow.say("NOTE finding F19 (beyond the listed properties; position saved by pause() counts transmitted lines): resume() displaced "
+                 "the machine in %d real executions (%d of %d directed witnesses)" % (len(f19), len(wit), len(cj.F19_WITNESSES)))
         # negative controls: two job lines swapped on the wire / one reply removed from the log
         ctl = []
         for t in trs:
             c = _c.deepcopy(t)
             txs = [e for e in c["ev"] if e["k"] == "tx" and bytes(e["text"]).startswith(b"N") and b"M110" not in bytes(e["text"])]
             rel = [k for k, e in enumerate(c["ev"]) if e["k"] == "rel"]
-            if len(txs) >= 2 and rel and len(ctl) < 4:
+            other = [e for e in txs[1:] if e["text"] != txs[0]["text"]] if txs else []
+            if other and rel and len(ctl) < 4:
                 if len(ctl) % 2 == 0:
-                    txs[0]["text"], txs[1]["text"] = txs[1]["text"], txs[0]["text"]
+                    txs[0]["text"], other[0]["text"] = other[0]["text"], txs[0]["text"]
                 else:
                     del c["ev"][rel[len(rel) // 2]]
                 ctl.append(c)
@@ -212,6 +227,7 @@ class P(flow.Plan):
         return {"job_life_cycle": {"executions": tot, "accepted_by_SenderJobsImpl": acc, "harness_lost": lost,
                                    "events": kinds, "corrupted_traces_rejected": "%d of %d" % (ct - ca, ct),
                                    "invariant_notes": [list(x) for x in inv[:5]],
+                                   "F19_resume_displaces_machine": {"executions": len(f19), "directed_witnesses_reproduced": "%d of %d" % (len(wit), len(cj.F19_WITNESSES))},
                                    "rejected_scenarios": [trs[i]["meta"]["scenario"] for i in rej[:3]]}}
 
     def executions(self, tier, sd):
